@@ -259,6 +259,31 @@ def run(ctx):
     ok = any(call_name(c) == "self.backend.get_subtree_tasks" and c.args and src(c.args[0]).endswith(".call_hash") for c in calls_in(gs))
     r4.check(ok, f"{m.rel}:Scheduler._get_subtree_tasks", "_get_subtree_tasks does not query the backend for the hit's call_hash", m.rel, gs.lineno)
 
+    # ---- C03.7 every job that resolves carries a call hash ----------------------------------------------
+    # Job.calc_subtree_tasks() unions a child's subtree set only when the child has a call_hash ("finished"); a job resolved without one
+    # -- e.g. a job deep inside an unrecorded (prov=False / no_prov) subtree -- is invisible to every ancestor's subtree set, and an edit
+    # beneath it is ignored by a shallow replay of the ancestor.
+    r7 = ctx.rule("C03.7", "every path through the resolve finaliser to job.resolve() establishes job.call_hash", floor=1)
+    cfg7 = CFG(rs)
+    t7 = cfg7.node_of(arm.test)
+    estab = set(cfg7.edge_nodes(t7, "T"))
+    for n in cfg7.nodes:
+        if n.kind == "stmt" and isinstance(n.ast, ast.Assign) and any(src(t) == f"{jv}.call_hash" for t in n.ast.targets):
+            if not (isinstance(n.ast.value, ast.Constant) and n.ast.value.value is None):
+                estab.add(n)
+    ends7 = [cfg7.node_of(c) for c in calls_in(rs, shallow=True) if call_name(c) == f"{jv}.resolve"]
+    if not ends7:
+        raise AnalysisError("resolve finaliser no longer calls job.resolve()", "Scheduler._resolve_job_main_thread")
+    r7.check(
+        cfg7.must_pass(cfg7.entry, estab, targets=ends7),
+        f"{m.rel}:Scheduler._resolve_job_main_thread:call-hash-on-every-path",
+        "a job can reach job.resolve() without a call_hash (neither the `if job.call_hash` arm nor an assignment to job.call_hash is on the path): "
+        "calc_subtree_tasks() treats a child without call_hash as unfinished and leaves its tasks out of every ancestor's subtree set, so a shallow "
+        "ancestor replays a stale result after a task beneath that job is edited",
+        m.rel,
+        rs.lineno,
+    )
+
 
 def marker_rows_in_final_transaction(rule, repo, nonempty_ok=None):
     """A CallNode writer that is not atomic relies on the reader's `recorded set is non-empty` test to tell an interrupted recording from a
